@@ -87,7 +87,14 @@ def evaluate(
     stdout as a str.
   """
   # Set up the permission and context.
-  permission = permission or permissions.get_permission()
+  # NOTE: the empty permission set is falsy but is a valid permission (nothing
+  # is allowed). An enclosing `permission` scope can only be narrowed by the
+  # explicit argument, never widened.
+  scoped_permission = permissions.get_permission()
+  if permission is None:
+    permission = scoped_permission
+  elif scoped_permission is not None:
+    permission = permission & scoped_permission
   ctx = dict(get_context())
   if global_vars:
     ctx.update(global_vars)
